@@ -420,6 +420,10 @@ class VTCase(unittest.TestCase):
         if s in ('fail', 'xfail', 'fail+teardown'):
             self.fail('boom %s' % vt['n'])
         if s in ('error', 'body+teardown'):
+            if vt.get('e') == 'Named':
+                # an exception class with an arbitrary name
+                raise type(vt['ename'], (Exception,), {'__module__': MOD})(
+                    vt.get('msg') or 'body of %s' % vt['n'])
             raise mkexc(vt.get('e', 'ValueError'), vt.get('msg') or 'body of %s' % vt['n'])
         if s == 'skip_body':
             self.skipTest('skip in body')
@@ -474,6 +478,72 @@ def make_test_class(t, modname, layers):
     return cls, mname
 
 
+# -------------------------------------------------------------- doctest cases
+# t['dt'] = 'string' (DocTestCase) | 'file' (DocFileCase); t['dname'] is the
+# doctest's dotted name (DocTestCase) / t['dfile'] its file path (DocFileCase);
+# t['s'] in {'pass', 'fail'}; t['dk'] how a failing one fails: 'diff' (output
+# differs, t['msg'] in the expected and the actual output) or 'exc' (the
+# example raises ValueError(t['msg'])).
+
+import doctest
+
+
+def _dt_emit(*ev):
+    emit(*ev)
+
+
+class _DTMixin:
+    _vt = None
+
+    def run(self, result=None):
+        emit('t', self._vt['n'], 'run>')
+        try:
+            return super().run(result)
+        finally:
+            emit('t', self._vt['n'], 'run<')
+
+
+class VTDocTestCase(_DTMixin, doctest.DocTestCase):
+    pass
+
+
+class VTDocFileCase(_DTMixin, doctest.DocFileCase):
+    pass
+
+
+def doctest_source(t):
+    msg = t.get('msg') or 'text'
+    src = '>>> vt_emit("t", %r, "body")\n' % t['n']
+    if t['s'] == 'pass':
+        src += '>>> print(vt_msg)\n%s\n' % (msg.replace('\n', ' ') or 'x')
+    elif t.get('dk', 'diff') == 'diff':
+        src += '>>> print("got", vt_msg)\nwant %s\n' % (msg.replace('\n', ' '))
+    else:
+        src += '>>> raise ValueError(vt_msg)\nnothing\n'
+    return src
+
+
+def make_doctest(t, modname, layers):
+    msg = t.get('msg') or 'text'
+    globs = {'vt_emit': _dt_emit, 'vt_msg': msg if t['s'] != 'pass' else (msg.replace('\n', ' ') or 'x')}
+    kind = t['dt']
+    if kind == 'file':
+        path = t.get('dfile') or ('/vtw/%s.txt' % t['n'])
+        name = os.path.basename(path)
+        dt = doctest.DocTestParser().get_doctest(doctest_source(t), globs, name, path, 0)
+        case = VTDocFileCase(dt)
+    else:
+        name = t.get('dname') or ('%s.d_%s' % (modname, t['n']))
+        dt = doctest.DocTestParser().get_doctest(doctest_source(t), globs, name, '/vtw/tests.py', 0)
+        case = VTDocTestCase(dt)
+    case._vt = t
+    if t.get('l') is not None:
+        case.layer = layers[t['l']]
+    if t.get('lv') is not None:
+        case.level = t['lv']
+    return case
+
+
 class Built:
     __slots__ = ('spec', 'layers', 'tests', 'suites', 'module', 'modname')
 
@@ -497,6 +567,11 @@ def build(spec):
     order = []
     for t in spec['tests']:
         t = dict(t)
+        if t.get('dt'):
+            inst = make_doctest(t, modname, layers)
+            tests[t['n']] = inst
+            order.append(inst)
+            continue
         _resolve_li(t, layers, modname)
         cls, mname = make_test_class(t, modname, layers)
         inst = cls(mname)
@@ -535,7 +610,8 @@ def build(spec):
     for k, v in layers.items():
         setattr(m, k, v)
     for inst in order:
-        setattr(m, type(inst).__name__, type(inst))
+        if not isinstance(inst, _DTMixin):
+            setattr(m, type(inst).__name__, type(inst))
     b.module = m
     return b
 
